@@ -231,7 +231,7 @@ def direct_cases(ctx, tmp):
         g = [rng.randint(1, 3) for _ in range(3)]
         if rng.random() < 0.25:
             g[rng.randrange(3)] = 0
-        s = [rng.randint(1, 8) if rng.random() < 0.25 else 2 * gi + rng.randint(1, 4) for gi in g]
+        s = [rng.randint(1, 8) if rng.random() < 0.1 else 2 * gi + rng.randint(1, 4) for gi in g]
         a = index_block(0, *s)
         cases.append(("trim %d %d %d %d %d %d" % tuple(g + s), show(a[g[2]:-g[2], g[1]:-g[1], g[0]:-g[0]]), "trim"))
     for _ in range(ctx.budget(20, 100)):
@@ -396,6 +396,7 @@ def pipeline(ctx, root, ndirs):
         lay = "%s/%s" % ("proc" if per_proc else "onefile", "group" if grouped else "var")
         layouts[lay] = layouts.get(lay, 0) + 1
         ctx.count("pipeline_restarts", len(desc["restarts"]))
+        ctx.count("pipeline_restarts_with_own_process_count", sum(1 for r in desc["restarts"] if "levels" in r))
         ctx.count("pipeline_chunks", sum(etgen.nchunks(lv["decomp"]) for lv in desc["levels"]))
         if k == 0:
             ctx.sample({"generated_directory": {kk: desc[kk] for kk in ("per_proc", "grouped", "levels", "restarts", "vars")},
